@@ -193,14 +193,21 @@ fn main() {
         if let Some(edit) = step.get("edit").filter(|e| !e.is_null()) {
             let file = edit["file"].as_str().expect("edit.file");
             let text = edit["text"].as_str().expect("edit.text");
-            if let Some(source) = project.get_source(Path::new(file)) {
-                source.change(None, text);
-                project.update_source(&source);
-            } else {
-                // didOpen of a file that is not part of the project (nonProjectFiles = analyze, the default)
-                project.update_source(&Source::inline(Path::new(file), text));
+            // a panic of the parser / analyser is outside C16 (C02/C03): recorded, the session ends here
+            let r = catch_unwind(AssertUnwindSafe(|| {
+                if let Some(source) = project.get_source(Path::new(file)) {
+                    source.change(None, text);
+                    project.update_source(&source);
+                } else {
+                    // didOpen of a file that is not part of the project (nonProjectFiles = analyze, the default)
+                    project.update_source(&Source::inline(Path::new(file), text));
+                }
+                project.analyse();
+            }));
+            if r.is_err() {
+                steps_out.push(json!({"analysis_panic": true, "files": []}));
+                break;
             }
-            project.analyse();
         }
         let mut files_out: Vec<Value> = Vec::new();
         for f in step["files"].as_array().expect("files") {
